@@ -23,8 +23,9 @@ def run(res):
                         "evaluations": n, "distinct": n, "rule": "distinct (layout, seed) pairs, each running ~120 wrapper constructions",
                         "samples": [{"labels": [0, 0, 2], "classes": 3, "wrapper": "Oversampling(exact)"}, {"labels": [1, 0, 1, 2, 2, 0, 1], "percent": 0.29}]})
     res.notes.append("proved: PercentFilterWrapper, SubsetWrapper (index and percent ranges), RepeatWrapper, ShuffleWrapper, ClassFilterWrapper constructors "
-                     "against their promised index sequence, SortByClassWrapper (strict (class, position) order = stable sort, no duplicate, every "
-                     "labelled sample present), FewshotWrapper (valid labelled samples in non-decreasing class order, none twice - the amount per "
+                     "against their promised index sequence, SortByClassWrapper (valid labelled samples in strict (class, position) order = stable "
+                     "sort without duplicates; that no labelled sample is lost is bounded only - the forall-exists obligation flipped between "
+                     "proved and unknown with the solver seed and is not registered), FewshotWrapper (valid labelled samples in non-decreasing class order, none twice - the amount per "
                      "class stays bounded), OversamplingWrapper(multiply) keeps every sample as a prefix and appends only valid labelled samples, "
                      "termination of OversamplingWrapper(exact); bounded only: "
                      "intra-class shuffle, few-shot amounts, class-wise subset, oversampling balance (multiset statements over numpy/torch code). "
